@@ -39,6 +39,9 @@ def owsim_half(ctx):
         # TLC-chosen interleavings (OwSimSched.tla) forced onto the race-detector build
         cases3, _ = owsim.graphs(ctx, "OwSimData_3.cfg")
         owsim.schedule_replay(ctx, cases3, binary, 4 if ctx.quick else 40, 2 if ctx.quick else 8, seed_offset=2500, label="b3_race")
+        # the hand-over to a writer child process (-outputs Model=file) on the race-detector build: frames of very
+        # different sizes, slow child; results compared, the shared event log validated against TraceOwSimSplit.tla
+        owsim.split_replay(ctx, cases3, binary, 5 if ctx.quick else 60, label="split_race")
         s["evaluations"] += s_slow["evaluations"]
         s["mismatches"] += s_slow["mismatches"]
         s["extra"] = {"perturbed": s["extra"], "perturbed_slow_io": s_slow["extra"]}
